@@ -192,7 +192,7 @@ pub fn property() -> Property {
                 driver: Driver::Generated { gen: gen_text_case, genome_len: 320, quick: 3_000_000, thorough: 24_000_000 },
                 check: text_check,
                 configs: Configs::Both,
-                required: &["raw_accepted", "raw_rejected", "noncanonical_accepted", "canonical_text", "board_accepted"],
+                required: &["raw_accepted", "raw_rejected", "canonical_text", "board_accepted"], // acceptance of non-canonical text is not promised
                 regressions: &[],
                 exhaustive: false,
             },
